@@ -328,9 +328,10 @@ func corrC08Icc(c *corrCtx) {
 	profiles = append(profiles, realProfiles()...)
 	for _, p := range profiles {
 		ref, _ := iccOut(p)
-		for _, sc := range [][]int{{1}, {2}, {3}, {7}, {4095}, randSched(r)} {
+		for _, sc := range [][]int{nil, {1}, {2}, {3}, {7}, {4095}, {100000}, randSched(r)} {
 			for _, bs := range []int{16, 64, 4096} {
-				src := &schedReader{data: p, sched: sc, endErr: ioEOF()}
+				// the final bytes may arrive together with io.EOF
+				src := &schedReader{data: p, sched: sc, endErr: ioEOF(), eofWithData: (bs+len(sc)+len(p))%2 == 0}
 				got := iccOutReader(bufioSized(src, bs), p)
 				c.emit("iccsched", "icc eof "+hexs(p), got)
 				if descClass(got) != descClass(ref) {
